@@ -18,13 +18,13 @@ type MutOpts struct {
 }
 
 var hugeUvarints = [][]byte{
-	{0xff, 0xff, 0xff, 0xff, 0x0f},                               // 2^32-1
-	{0xff, 0xff, 0xff, 0xff, 0xff, 0xff, 0xff, 0xff, 0x7f},       // 2^63-1
-	{0xff, 0xff, 0xff, 0xff, 0xff, 0xff, 0xff, 0xff, 0xff, 0x01}, // 2^64-1
-	{0x80, 0x80, 0x80, 0x80, 0x80, 0x80, 0x80, 0x80, 0x80, 0x01}, // 2^63
+	{0xff, 0xff, 0xff, 0xff, 0x0f},                                     // 2^32-1
+	{0xff, 0xff, 0xff, 0xff, 0xff, 0xff, 0xff, 0xff, 0x7f},             // 2^63-1
+	{0xff, 0xff, 0xff, 0xff, 0xff, 0xff, 0xff, 0xff, 0xff, 0x01},       // 2^64-1
+	{0x80, 0x80, 0x80, 0x80, 0x80, 0x80, 0x80, 0x80, 0x80, 0x01},       // 2^63
 	{0x80, 0x80, 0x80, 0x80, 0x80, 0x80, 0x80, 0x80, 0x80, 0x80, 0x80}, // overlong
-	{0x80, 0x80, 0x40},       // 1 MiB
-	{0x81, 0x80, 0x80, 0x20}, // 64 MiB + 1
+	{0x80, 0x80, 0x40},             // 1 MiB
+	{0x81, 0x80, 0x80, 0x20},       // 64 MiB + 1
 	{0xff, 0xff, 0xff, 0xff, 0x07}, // 2^31-1
 }
 
